@@ -28,38 +28,59 @@ from .common import find_node, indent_of, rule
 PROP = "C02"
 READY = False
 TECHNIQUE = (
-    "token-type exhaustiveness against the parsed markdown-it/plugin sources, CFG path counting of node attachment and "
-    "child rendering, def-use tracing of leaf content and link destinations, writer enumeration for current_node"
+    "token-type exhaustiveness against the parsed markdown-it/plugin sources, CFG path counting of node attachment, child rendering and leaf emission "
+    "with computed helper summaries, truth/decision tables for branch conditions, def-use slicing of leaf content and link destinations, writer enumeration for current_node"
 )
 
 META = {
     "explanation": (
-        "R1: every token type that the markdown-it rule modules and the plugin modules imported by parsers/mdit.py can emit "
-        "(state.push / Token(...) / .type = ..., folded X_open/X_close -> X as SyntaxTreeNode does) has a render_<type> method "
-        "that the renderer's `rules` table admits, or is consumed inside another handler / removed by a core rule / never "
-        "registered by MyST (each such table entry is re-verified against the sources on every run); the two dispatch loops "
-        "visit every child once, in order. R2: in every render method and helper, each docutils node that is constructed and "
-        "bound to a name is attached exactly once on every normal path (helper summaries are computed, not tabled), and every "
-        "container handler renders the token's children exactly once on every path that neither reports a warning nor is "
-        "guarded by the link being implicit (token.info == 'auto' / no children). R3: the text of text, inline code, code "
-        "block, fence, math and raw HTML leaves is exactly token.content (def-use chain without intervening call); the code "
-        "highlighter appends every lexer fragment once; link destinations and image URIs derive from token.attrGet('href'/'src') "
-        "(backward data slice, followed into extracted helpers); the image `alt` is the text of the image token's children and every token type to which markdown-it's reference renderInlineAsText gives a contribution gives the same contribution in MyST's port; a destination that receives only one part of a split href (the path before '#') must have the remainder stored on the same node (download_reference excepted); the ordered-list start reaches the node for every legal start incl. 0 (decision table of the guards and of the stored value over N in {0, 2, 10}) and copy_attributes never tests the truthiness of a value it copies; code language derives from the token. R6: update_section_level_state records the section under its level, chooses the parent among exactly the strictly shallower levels, and removes exactly the deeper levels (decision table of the filter over key-level, or linear form of the range bounds). Only normal control flow is judged (exception handlers are C01's subject). R4: current_node is rebound only by setup_render, the save/set/restore halves of "
-        "current_node_context and the final statement of the section branch of render_heading. R5: the Sphinx renderer "
-        "overrides only link/math handling and adds no handler of its own; create_md_parser's renderer argument reaches "
-        "only MarkdownIt(renderer_cls=...)."
+        "Six families of structural necessary conditions, decided on syntax trees, per-function control-flow graphs and small truth / decision tables. "
+        "R1 exhaustiveness: every token type that the markdown-it rule modules and the plugin modules imported by parsers/mdit.py can emit "
+        "(state.push / Token(...) / .type = ..., folded X_open/X_close -> X as SyntaxTreeNode does) has a render_<type> method that the renderer's "
+        "`rules` table admits, or is consumed inside another handler / removed by a core rule / never registered by MyST (each table entry re-verified "
+        "against the sources on every run; the table handler is followed through its helper methods); the two dispatch loops hand every child exactly "
+        "once, in order, to the handler selected by its own type or warn (helper methods, hoisted keys and .get idioms are followed). "
+        "R2 nesting, by path counting on the CFG of every render method and of the helpers it reaches (self.m(), getattr(self, TABLE[k])(), Class.m(), module functions): "
+        "(a) each docutils node that is constructed and bound to a name is attached exactly once on every normal path (helper attachment is a computed summary); "
+        "(b) every container handler renders the token's children exactly once; a path that renders none is accepted only if it reports conditionally, or if the branch "
+        "condition that selects it implies that the link is implicit (token.info == 'auto' or no children) - decided by a truth table after unfolding locals, `is None` tests, "
+        "parameters through their call sites and predicate helpers through their return statements; (c) per-child loops, pop-bindings and helpers that take a sequence of "
+        "tokens render every child once; (d) children are rendered inside current_node_context of an empty element built by the handler; (e) a value stored in the node built "
+        "for one child is assigned on every path of that iteration (no stale value of an earlier child); (f) the handlers of the leaf types the property names "
+        "(text, inline code, code block, fence, math, raw HTML, image, thematic break) add something to the node being filled on every normal path (an empty token.content excepted); "
+        "(g) nothing in the render scope removes nodes from a tree handed in by the caller or from the renderer's own nodes, unless the name was rebound to a deepcopy on every path. "
+        "R3 content: the text of text, inline code, code block, fence, math and raw HTML leaves is exactly token.content (def-use chain, extracted helpers followed); the code highlighter "
+        "feeds the lexer the text it was given and appends every fragment once; refuri/refname/uri/reftarget derive from token.attrGet('href'/'src') (backward slice through locals, "
+        "parameters and helpers); a destination that receives only one part of a split href must have the remainder stored on the same node (download_reference excepted); image alt is "
+        "the text of the image token's children, agrees per token type with markdown-it's reference renderInlineAsText and visits nested inline nodes in source order (recursion or an "
+        "order-preserving work list); the ordered-list start reaches the node for every legal start including 0 (decision table of the guards and the stored value), copy_attributes never "
+        "tests the truthiness of a value it copies; the code language derives from token.info. "
+        "R4: current_node is rebound only by setup_render, by the save/set/restore halves of current_node_context (append before the rebind) and as the final statement of the section branch of "
+        "render_heading or of a helper that render_heading calls last; += on it appends in place (docutils Element.__iadd__). "
+        "R5 back ends: renderer subclasses override only link/math methods and add no handler; create_md_parser's renderer argument reaches only MarkdownIt(renderer_cls=...) and no condition; both "
+        "front ends render with create_md_parser(config, <DocutilsRenderer class>) of the document being parsed - directly, through a helper returning a fresh parser, or through a cache whose key covers "
+        "every configuration field create_md_parser reads. "
+        "R6: update_section_level_state records the section under its level, picks the parent among exactly the strictly shallower levels and removes exactly the deeper levels "
+        "(decision table of the filter over key - level, or linear form of the range bounds). Only normal control flow is judged (exception handlers are C01's subject)."
     ),
-    "not_decided": "equality of the token tree and the doctree for all documents (needs the trees); behaviour of directives/roles; markdown-it's own tokenisation; what docutils' Lexer yields for a text",
+    "not_decided": (
+        "equality of the token tree and the doctree for all documents (needs the trees); the content model of docutils (which node may contain which); behaviour of directives/roles and of "
+        "html_to_nodes; markdown-it's own tokenisation; what docutils' Lexer yields for a text; table cell alignment beyond 'computed from the current cell'; losses through library calls "
+        "(urlparse, regular expressions) on a destination; intended 'inherit from the previous sibling' values would be reported by R2(e)"
+    ),
     "trusted_base": [
         "CPython ast",
-        "installed markdown_it / mdit_py_plugins / docutils sources as parsed",
+        "installed markdown_it / mdit_py_plugins / docutils / sphinx.addnodes sources as parsed",
         "consumed-elsewhere table of R1 (re-verified per entry)",
         "markdown_it.renderer.RendererHTML.renderInlineAsText as the oracle for alt text",
+        "the engine's CFG (mystsa/flow.py)",
     ],
     "assumptions": [
         "markdown-it emits tokens only through state.push / Token(...) / `.type =` with literal type strings in its rule modules",
         "users do not disable the core rule text_join via myst_disable_syntax",
-        "a path that reports a warning/error may drop the children of the token (the loss is reported)",
+        "a path that reports a warning/error conditionally may drop the children of a container token (the loss is announced); a leaf token may not be dropped",
+        "a node parameter of a helper may be part of the live doctree",
+        "ordered-list start numbers are ints with 0 legal; the decision table samples 0, 2 and 10",
     ],
 }
 
@@ -377,23 +398,27 @@ def _consumed_elsewhere(corpus: Corpus, tt: TokenTypes, t: str) -> tuple[str, st
     if t in ("fieldlist_name", "fieldlist_body"):
         return by_literal(handler("render_field_list"), "consumed by render_field_list (child.type compared with the literal, children rendered there)")
     if t in ("thead", "tbody", "tr", "th", "td"):
-        ft, fr = handler("render_table"), handler("render_table_row")
-        idx = set()
-        for n in ft.local_nodes():
-            if isinstance(n, ast.Subscript) and isinstance(n.value, ast.Attribute) and n.value.attr == "children" and isinstance(n.slice, ast.Constant):
-                idx.add((unparse(n.value.value), n.slice.value))
-        tok = _tok_param(ft)
-        calls_row = [c for c in ft.local_nodes() if isinstance(c, ast.Call) and _is_self_call(c, "render_table_row")]
-        body_loop = any(
-            isinstance(n, ast.For) and any(isinstance(c, ast.Call) and _is_self_call(c, "render_table_row") and c.args and isinstance(c.args[0], ast.Name) and isinstance(n.target, ast.Name) and c.args[0].id == n.target.id for c in ast.walk(n))
-            for n in ft.local_nodes()
-        )
-        why = "consumed by render_table (children[0] = thead, children[1] = tbody, each row through render_table_row, which renders the children of every cell)"
-        if not calls_row:
-            return BROKEN, "render_table no longer renders rows through render_table_row"
-        if (tok, 0) in idx and (tok, 1) in idx and len(calls_row) >= 2 and body_loop and _renders_children_of_loop_var(fr):
-            return OK, why
-        return UNKNOWN, "render_table / render_table_row no longer have the children[0]/children[1]/row-loop shape"
+        # the table handler walks its sub-tokens itself; how often each is rendered is judged by R2, here only:
+        # render_table, or a helper it calls, renders the children of some sub-token
+        an = _nesting(corpus, corpus.cls(RENDERER))
+        ft = handler("render_table")
+        seen: set[str] = set()
+        work = [ft]
+        renders = False
+        while work:
+            f = work.pop()
+            if f.fq in seen or f.is_lambda:
+                continue
+            seen.add(f.fq)
+            for c in f.local_nodes():
+                if isinstance(c, ast.Call):
+                    if _is_self_call(c, "render_children"):
+                        renders = True
+                    elif _is_self_call(c) or isinstance(c.func, ast.Call):
+                        work.extend(m for m in an.call_targets_safe(c, f) if m.cls is not None)
+        if renders:
+            return OK, "consumed by render_table and its helpers (which render the children of the cells; counts and nesting are judged by C02.R2)"
+        return BROKEN, "neither render_table nor any helper it calls renders the children of a table sub-token"
     if t == "text_special":
         m = tt.mods.get("markdown_it.rules_core.text_join")
         f = m.functions.get("text_join") if m is not None else None
@@ -779,6 +804,7 @@ class Nesting:
         self.memo: dict = {}
         self.assumed: list[tuple[str, str, str, str]] = []
         self.escapes: set[tuple[str, str]] = set()
+        self._atoms: set[str] = set()
 
     # -- resolution ---------------------------------------------------------
     def method(self, name: str) -> FunctionInfo | None:
@@ -805,14 +831,64 @@ class Nesting:
             for c in m.local_nodes():
                 if isinstance(c, ast.Call) and _is_self_call(c) and c.func.attr not in seen:
                     work.append(c.func.attr)
+                elif isinstance(c, ast.Call):
+                    for nm in self.table_dispatch_names(c, m) or []:
+                        if nm not in seen:
+                            work.append(nm)
         out = [seen[n] for n in sorted(seen)]
         self.memo[key] = out
         return out
 
+    def class_table(self, name: str) -> dict | None:
+        """A class-level ``NAME = {"k": "method_name", ...}`` constant visible from the class."""
+        for ci in self.c.mro(self.k):
+            for st in ci.node.body:
+                tgt = st.targets[0] if isinstance(st, ast.Assign) and len(st.targets) == 1 else st.target if isinstance(st, ast.AnnAssign) else None
+                if isinstance(tgt, ast.Name) and tgt.id == name and isinstance(getattr(st, "value", None), ast.Dict):
+                    try:
+                        return ast.literal_eval(st.value)
+                    except Exception:
+                        return None
+        return None
+
+    def table_dispatch_names(self, call: ast.Call, fi: FunctionInfo) -> list[str] | None:
+        """``getattr(self, self.TABLE[k])(...)`` / ``getattr(self, self.TABLE.get(k))(...)``: the method names in TABLE."""
+        f = call.func
+        if not (isinstance(f, ast.Call) and dotted(f.func) == "getattr" and len(f.args) >= 2 and isinstance(f.args[0], ast.Name) and f.args[0].id == "self"):
+            return None
+        sel = f.args[1]
+        if isinstance(sel, ast.Name):
+            defs = _all_defs(fi, sel.id)
+            if len(defs) == 1:
+                sel = defs[0]
+        tab = None
+        if isinstance(sel, ast.Subscript):
+            tab = sel.value
+        elif isinstance(sel, ast.Call) and isinstance(sel.func, ast.Attribute) and sel.func.attr == "get":
+            tab = sel.func.value
+        d = dotted(tab) if tab is not None else None
+        if not d or d.split(".")[0] not in ("self", "cls") and not d.startswith("type(self)"):
+            raise Unsupported(f"{fi.qualname}: dynamic method lookup `{short(f, 50)}` not understood")
+        table = self.class_table(d.rsplit(".", 1)[-1])
+        if not table or not all(isinstance(v, str) for v in table.values()):
+            raise Unsupported(f"{fi.qualname}: `{d}` is not a class-level table of method names")
+        return sorted(set(table.values()))
+
+    def call_targets(self, call: ast.Call, fi: FunctionInfo) -> list[FunctionInfo]:
+        """Package functions a call can reach: self.m(), getattr(self, TABLE[k])(), Class.m(), f()."""
+        names = self.table_dispatch_names(call, fi)
+        if names is not None:
+            out = [self.method(n) for n in names]
+            if any(m is None for m in out):
+                raise Unsupported(f"{fi.qualname}: dispatch table names a missing method")
+            return out  # type: ignore[return-value]
+        m = self.resolve_callee(call, fi)
+        return [m] if m is not None else []
+
     def _param_for_arg(self, call: ast.Call, m: FunctionInfo, pred) -> list[str]:
         """Names of the parameters of ``m`` that receive an argument satisfying ``pred`` at ``call``."""
         ps = m.params
-        off = 1 if ps and ps[0] == "self" and m.cls is not None else 0
+        off = 1 if ps and ps[0] in ("self", "cls") and m.cls is not None and "staticmethod" not in m.decorators() else 0
         out = []
         for i, a in enumerate(call.args):
             if isinstance(a, ast.Starred):
@@ -838,6 +914,16 @@ class Nesting:
         d = dotted(call.func)
         if d and "." not in d:
             return self.c.find_function(fi.module.resolve(d)) if fi.module.resolve(d) != d else fi.module.functions.get(d)
+        if d and d.count(".") == 1:
+            head, meth = d.split(".")
+            if head == "cls" and fi.cls is not None:
+                return self.c.lookup_method(fi.cls, meth)
+            r = fi.module.resolve(head)
+            ci = self.c.find_class(r) if r != head else fi.module.classes.get(head)
+            if ci is None and head in fi.module.classes:
+                ci = fi.module.classes[head]
+            if ci is not None:
+                return self.c.lookup_method(ci, meth)
         return None
 
     # -- producers ------------------------------------------------------------
@@ -917,7 +1003,7 @@ class Nesting:
                         w += 1
                     continue
                 d = dotted(f) or ""
-                if d in BENIGN_CALLEES or (isinstance(f, ast.Attribute) and f.attr.startswith("note_")):
+                if d in BENIGN_CALLEES or d.split(".")[-1] in ("deepcopy", "copy") or (isinstance(f, ast.Attribute) and f.attr.startswith("note_")):
                     continue
                 m = self.resolve_callee(c, fi)
                 if m is None:
@@ -968,47 +1054,202 @@ class Nesting:
         return _path_counts(cfg, start, weight, is_stop)
 
     # -- children rendered once ---------------------------------------------------
-    def implicit_dependent(self, e: ast.AST, fi: FunctionInfo, tok: str | None, depth: int = 0) -> bool:
-        """Does the condition depend (data or control, through locals; one call level for parameters) on the
-        link being implicit: ``<tok>.info`` / ``<tok>.children``?"""
-        seen: set[str] = set()
-        work = [e]
+    # The only silent way not to render the children of a link is that the link is *implicit*:
+    #   IMPLICIT := tok.info == "auto"  or  tok.children is empty
+    # A branch edge excuses a 0-path iff (condition of the edge) => IMPLICIT, decided by a truth table over the
+    # atoms A (info == "auto"), C (children non-empty) and opaque atoms for everything else. Locals, `x is None`
+    # tests, parameters (via the call sites) and helper predicates (via their return statements) are unfolded.
+    def _atom(self, name: str):
+        self._atoms.add(name)
+        return lambda env: env[name]
+
+    def _is_children(self, e: ast.AST, tok: str | None) -> bool:
+        if isinstance(e, ast.BoolOp) and isinstance(e.op, ast.Or) and len(e.values) == 2 and isinstance(e.values[1], (ast.List, ast.Tuple)) and not e.values[1].elts:
+            e = e.values[0]
+        return isinstance(e, ast.Attribute) and e.attr == "children" and isinstance(e.value, ast.Name) and e.value.id == tok
+
+    def _guards_formula(self, st, fi: FunctionInfo, tok, depth: int):
         cfg = get_cfg(fi)
-        while work:
-            x = work.pop()
-            for n in ast.walk(x):
-                if isinstance(n, ast.Attribute) and n.attr in ("info", "children") and isinstance(n.value, ast.Name) and n.value.id == tok:
-                    return True
-                if isinstance(n, ast.Name) and n.id not in seen:
-                    seen.add(n.id)
-                    if n.id in fi.params and n.id != tok and depth < 1:
-                        sites = []
-                        for g in self.scope():
-                            for c in g.local_nodes():
-                                if isinstance(c, ast.Call) and _is_self_call(c, fi.name):
-                                    sites.append((g, c))
-                        if sites:
-                            ok = True
-                            for g, c in sites:
-                                ps = fi.params
-                                idx = ps.index(n.id) - 1
-                                a = c.args[idx] if 0 <= idx < len(c.args) else kwarg(c, n.id)
-                                if a is None or not self.implicit_dependent(a, g, _tok_param(g), depth + 1):
-                                    ok = False
-                            if ok:
-                                return True
-                    for st in fi.local_nodes():
-                        if isinstance(st, ast.stmt):
-                            b = _binds(st, n.id)
-                            if b is not False:
-                                if b is not True:
-                                    work.append(b)
-                                try:
-                                    for t, _pol in cfg.guards(st):
-                                        work.append(t)
-                                except Exception:
-                                    pass
-        return False
+        fs = []
+        for t, pol in cfg.guards(cfg.stmt_of(st)):
+            f = self.formula(t, fi, tok, depth + 1)[0]
+            fs.append(f if pol else (lambda env, f=f: not f(env)))
+        return lambda env: all(f(env) for f in fs)
+
+    def _callee_value(self, call: ast.Call, fi: FunctionInfo, tok, depth: int, index: int | None, want: str):
+        """Formula of (element ``index`` of) the value returned by a package helper that receives the token:
+        ``want`` = 'truthy' or 'nonnone'. None if the call cannot be unfolded."""
+        ms = self.call_targets(call, fi) if not (isinstance(call.func, ast.Subscript)) else []
+        if len(ms) != 1 or ms[0].is_lambda or depth > 5:
+            return None
+        m = ms[0]
+        pt = _tok_param(m)
+        if pt is not None:
+            bound = self._param_for_arg(call, m, lambda x: isinstance(x, ast.Name) and x.id == tok)
+            if pt not in bound:
+                pt = None
+        alts = []
+        for r in m.local_nodes():
+            if not (isinstance(r, ast.Return) and r.value is not None):
+                continue
+            v = r.value
+            if index is not None:
+                if not (isinstance(v, ast.Tuple) and index < len(v.elts)):
+                    return None
+                v = v.elts[index]
+            g = self._guards_formula(r, m, pt, depth)
+            if want == "nonnone":
+                if isinstance(v, ast.Constant):
+                    val = (lambda env, b=v.value is not None: b)
+                elif isinstance(v, ast.Name):
+                    val = self.nonnone(v.id, m, pt, depth + 1)
+                else:
+                    val = lambda env: True  # noqa: E731
+            else:
+                val = self.formula(v, m, pt, depth + 1)[0]
+            alts.append(lambda env, g=g, val=val: g(env) and val(env))
+        if not alts:
+            return None
+        return lambda env: any(a(env) for a in alts)
+
+    def nonnone(self, name: str, fi: FunctionInfo, tok, depth: int):
+        """Formula of 'local ``name`` is not None' from its assignments and their guards."""
+        alts = []
+        for st in fi.local_nodes():
+            if not isinstance(st, (ast.Assign, ast.AnnAssign)) or getattr(st, "value", None) is None:
+                continue
+            tgts = st.targets if isinstance(st, ast.Assign) else [st.target]
+            for t in tgts:
+                if isinstance(t, ast.Name) and t.id == name:
+                    if isinstance(st.value, ast.Constant) and st.value.value is None:
+                        continue
+                    g = self._guards_formula(st, fi, tok, depth)
+                    alts.append(g)
+                elif isinstance(t, (ast.Tuple, ast.List)):
+                    for i, el in enumerate(t.elts):
+                        if isinstance(el, ast.Name) and el.id == name:
+                            g = self._guards_formula(st, fi, tok, depth)
+                            cv = self._callee_value(st.value, fi, tok, depth + 1, i, "nonnone") if isinstance(st.value, ast.Call) else None
+                            if cv is None:
+                                cv = self._atom(f"O:{fi.fq}:{name} is not None after {short(st, 40)}")
+                            alts.append(lambda env, g=g, cv=cv: g(env) and cv(env))
+        if name in fi.params:
+            return self._atom(f"O:{fi.fq}:{name} is not None")
+        return lambda env: any(a(env) for a in alts)
+
+    def formula(self, e: ast.AST, fi: FunctionInfo, tok: str | None, depth: int = 0) -> list:
+        """Truthiness of ``e`` as boolean functions over the atom assignment (one per call-site alternative)."""
+        def opaque():
+            return [self._atom(f"O:{fi.fq}:{unparse(e)}")]
+
+        if depth > 8:
+            return opaque()
+        if isinstance(e, ast.Constant):
+            return [lambda env, b=bool(e.value): b]
+        if isinstance(e, ast.UnaryOp) and isinstance(e.op, ast.Not):
+            return [(lambda env, f=f: not f(env)) for f in self.formula(e.operand, fi, tok, depth + 1)]
+        if self._is_children(e, tok):
+            return [self._atom("C")]
+        if isinstance(e, ast.BoolOp):
+            combos = [[]]
+            for v in e.values:
+                fs = self.formula(v, fi, tok, depth + 1)
+                combos = [c + [f] for c in combos for f in fs][:8]
+            if isinstance(e.op, ast.And):
+                return [(lambda env, c=c: all(f(env) for f in c)) for c in combos]
+            return [(lambda env, c=c: any(f(env) for f in c)) for c in combos]
+        if isinstance(e, ast.Compare) and len(e.ops) == 1:
+            l, op, r = e.left, e.ops[0], e.comparators[0]
+            if isinstance(l, ast.Attribute) and l.attr == "info" and isinstance(l.value, ast.Name) and l.value.id == tok and isinstance(r, ast.Constant) and r.value == "auto" and isinstance(op, (ast.Eq, ast.NotEq)):
+                a = self._atom("A")
+                return [a if isinstance(op, ast.Eq) else (lambda env: not a(env))]
+            if isinstance(l, ast.Call) and dotted(l.func) == "len" and l.args and self._is_children(l.args[0], tok) and isinstance(r, ast.Constant) and isinstance(r.value, int):
+                c = self._atom("C")
+                table = {(ast.Gt, 0): True, (ast.GtE, 1): True, (ast.NotEq, 0): True, (ast.Eq, 0): False, (ast.Lt, 1): False, (ast.LtE, 0): False}
+                pol = table.get((type(op), r.value))
+                if pol is not None:
+                    return [c if pol else (lambda env: not c(env))]
+            if isinstance(l, ast.Name) and isinstance(r, ast.Constant) and r.value is None and isinstance(op, (ast.Is, ast.IsNot, ast.Eq, ast.NotEq)):
+                nn = self.nonnone(l.id, fi, tok, depth + 1)
+                return [nn if isinstance(op, (ast.IsNot, ast.NotEq)) else (lambda env: not nn(env))]
+            return opaque()
+        if isinstance(e, ast.Call):
+            d = dotted(e.func) or ""
+            if d == "bool" and len(e.args) == 1:
+                return self.formula(e.args[0], fi, tok, depth + 1)
+            if d == "len" and e.args and self._is_children(e.args[0], tok):
+                return [self._atom("C")]
+            if tok is not None and any(isinstance(a, ast.Name) and a.id == tok for a in list(e.args) + [k.value for k in e.keywords]):
+                cv = self._callee_value(e, fi, tok, depth + 1, None, "truthy")
+                if cv is not None:
+                    return [cv]
+            return opaque()
+        if isinstance(e, ast.Name):
+            if e.id in fi.params and e.id != tok and e.id not in ("self", "cls"):
+                alts = []
+                for g in self.scope():
+                    for c in g.local_nodes():
+                        if isinstance(c, ast.Call) and fi in self.call_targets_safe(c, g):
+                            args = self._args_for_param(c, fi, e.id)
+                            tg = _tok_param(g)
+                            # the same token must travel along
+                            pt = _tok_param(fi)
+                            same = pt is not None and tg is not None and any(isinstance(a, ast.Name) and a.id == tg for a in self._args_for_param(c, fi, pt))
+                            for a in args:
+                                alts.extend(self.formula(a, g, tg if same else None, depth + 1))
+                return alts[:8] or opaque()
+            defs = [st for st in fi.local_nodes() if isinstance(st, ast.stmt) and _binds(st, e.id) is not False]
+            if len(defs) == 1 and isinstance(defs[0], (ast.Assign, ast.AnnAssign)):
+                st = defs[0]
+                tgts = st.targets if isinstance(st, ast.Assign) else [st.target]
+                if len(tgts) == 1 and isinstance(tgts[0], ast.Name):
+                    return self.formula(st.value, fi, tok, depth + 1)
+                if len(tgts) == 1 and isinstance(tgts[0], (ast.Tuple, ast.List)) and isinstance(st.value, ast.Call):
+                    for i, el in enumerate(tgts[0].elts):
+                        if isinstance(el, ast.Name) and el.id == e.id:
+                            cv = self._callee_value(st.value, fi, tok, depth + 1, i, "truthy")
+                            if cv is not None:
+                                return [cv]
+            return opaque()
+        return opaque()
+
+    def call_targets_safe(self, call: ast.Call, fi: FunctionInfo) -> list[FunctionInfo]:
+        try:
+            return self.call_targets(call, fi)
+        except Unsupported:
+            return []
+
+    def _args_for_param(self, call: ast.Call, m: FunctionInfo, pname: str) -> list[ast.expr]:
+        ps = m.params
+        off = 1 if ps and ps[0] in ("self", "cls") and m.cls is not None and "staticmethod" not in m.decorators() else 0
+        out = []
+        if pname in ps:
+            i = ps.index(pname) - off
+            if 0 <= i < len(call.args) and not any(isinstance(a, ast.Starred) for a in call.args[: i + 1]):
+                out.append(call.args[i])
+        for kw in call.keywords:
+            if kw.arg == pname:
+                out.append(kw.value)
+        return out
+
+    def edge_implies_implicit(self, test: ast.expr, pol: bool, fi: FunctionInfo, tok: str | None) -> bool:
+        """(test == pol)  =>  (tok.info == 'auto' or not tok.children), for every assignment of the atoms."""
+        import itertools
+
+        self._atoms = set()
+        fs = self.formula(test, fi, tok)
+        atoms = sorted(self._atoms | {"A", "C"})
+        if len(atoms) > 12:
+            return False
+        sat = False
+        for f in fs:
+            for vals in itertools.product((False, True), repeat=len(atoms)):
+                env = dict(zip(atoms, vals))
+                if bool(f(env)) == pol:
+                    sat = True
+                    if not (env["A"] or not env["C"]):
+                        return False
+        return sat
 
     def is_report(self, st, fi: FunctionInfo) -> bool:
         for root in _header_exprs(st):
@@ -1021,24 +1262,40 @@ class Nesting:
                         return True
         return False
 
-    def consume_weight(self, st, name: str, fi: FunctionInfo) -> int:
+    def consume_weight(self, st, name: str, fi: FunctionInfo) -> set[int]:
+        """How often the statement renders the children of ``name``; several values when a dispatch table
+        selects among handlers that differ."""
         w = 0
+        totals = {0}
         is_n = lambda x: isinstance(x, ast.Name) and x.id == name  # noqa: E731
+        in_seq = lambda x: isinstance(x, (ast.List, ast.Tuple)) and any(is_n(y) for y in x.elts)  # noqa: E731
         for root in _header_exprs(st):
             for c in _walk_expr(root):
-                if not (isinstance(c, ast.Call) and _is_self_call(c)):
+                if not isinstance(c, ast.Call):
                     continue
-                if not (any(is_n(a) for a in c.args) or any(is_n(k.value) for k in c.keywords)):
+                allargs = list(c.args) + [k.value for k in c.keywords]
+                if not any(is_n(a) or in_seq(a) for a in allargs):
                     continue
-                if c.func.attr == "render_children":
+                if _is_self_call(c, "render_children"):
                     w += 1
                     continue
-                m = self.method(c.func.attr)
-                if m is None:
+                if not (_is_self_call(c) or isinstance(c.func, ast.Call)):
                     continue
-                for p in self._param_for_arg(c, m, is_n):
-                    w += self.consume_summary(m, p)[0]
-        return w
+                ms = self.call_targets(c, fi)
+                if not ms:
+                    continue
+                ws = set()
+                for m in ms:
+                    wm = 0
+                    for p in self._param_for_arg(c, m, is_n):
+                        k, mode = self.consume_summary(m, p)
+                        wm += k if mode != "each" else 0
+                    for p in self._param_for_arg(c, m, in_seq):
+                        k, mode = self.consume_summary(m, p)
+                        wm += k if mode == "each" else 0
+                    ws.add(wm)
+                totals = {t + x for t in totals for x in ws}
+        return {min(2, w + t) for t in totals}
 
     def consume_paths(self, fi: FunctionInfo, start, name: str, extra_stop=None) -> tuple[set[tuple[int, bool]], list]:
         """Set of (count, excused) over the paths from ``start`` to EXIT / rebinding of ``name`` / extra stop."""
@@ -1052,7 +1309,7 @@ class Nesting:
         for s in cfg.succ.get(start, []):
             states.setdefault(s, set()).add((0, False))
             work.append(s)
-        dep_cache: dict[int, bool] = {}
+        dep_cache: dict = {}
         while work:
             n = work.pop()
             cur = states.get(n, set())
@@ -1065,18 +1322,18 @@ class Nesting:
             if not new:
                 continue
             done.setdefault(n, set()).update(new)
-            w = 0
+            ws = {0}
             flag = False
             if isinstance(n, ast.stmt):
-                w = self.consume_weight(n, name, fi)
+                ws = self.consume_weight(n, name, fi)
                 if self.is_report(n, fi) and not all(cfg.postdominates(n, e) for e in entry_nodes if isinstance(e, ast.stmt)):
                     flag = True  # a conditional report: the loss on this path is announced
             elif isinstance(n, tuple) and n[0] in ("T", "F") and isinstance(n[1], ast.If):
-                key = id(n[1])
+                key = (id(n[1]), n[0])
                 if key not in dep_cache:
-                    dep_cache[key] = self.implicit_dependent(n[1].test, fi, tok)
+                    dep_cache[key] = self.edge_implies_implicit(n[1].test, n[0] == "T", fi, tok)
                 flag = dep_cache[key]
-            out = {(min(2, c + w), x or flag) for c, x in new}
+            out = {(min(2, c + w), x or flag) for c, x in new for w in ws}
             for s in cfg.succ.get(n, []):
                 if not out <= states.get(s, set()):
                     states.setdefault(s, set()).update(out)
@@ -1098,8 +1355,13 @@ class Nesting:
         res, _ = self.consume_paths(m, "ENTRY", p)
         counts = {c for c, _x in res}
         if counts <= {0}:
-            # loop-based consumption of <p>.children
-            out = (1, "loop") if self.child_loops(m, p, judged_only=True) else (0, "")
+            # loop-based consumption of <p>.children, or of <p> itself when it is a sequence of tokens
+            if self.child_loops(m, p, judged_only=True) or self.delegated_loops(m, p):
+                out = (1, "loop")
+            elif self.sequence_loops(m, p):
+                out = (1, "each")
+            else:
+                out = (0, "")
         else:
             bad = {(c, x) for c, x in res if not (c == 1 or (c == 0 and x))}
             out = (1, "bad" if bad else "")
@@ -1122,6 +1384,92 @@ class Nesting:
                             if isinstance(st, (ast.For, ast.comprehension)) and any(isinstance(t, ast.Name) and t.id == n.id for t in ast.walk(st.target)):
                                 work.append(st.iter)
         return False
+
+    # -- leaf emission ---------------------------------------------------------------
+    def emit_weight(self, st, fi: FunctionInfo) -> int:
+        """Does the statement add something to the node currently being filled?"""
+        if isinstance(st, ast.AugAssign) and isinstance(st.op, ast.Add) and unparse(st.target) == "self.current_node":
+            return 1
+        for root in _header_exprs(st):
+            for c in _walk_expr(root):
+                if not isinstance(c, ast.Call):
+                    continue
+                f = c.func
+                if isinstance(f, ast.Attribute) and f.attr in ("append", "extend", "insert") and unparse(f.value) == "self.current_node":
+                    return 1
+                if _is_self_call(c, "current_node_context"):
+                    ap = arg_or_kw(c, 1, "append")
+                    if isinstance(ap, ast.Constant) and ap.value is True:
+                        return 1
+                    continue
+                if _is_self_call(c, "create_warning") or _is_self_call(c, "render_children"):
+                    continue
+                if _is_self_call(c) or isinstance(f, ast.Call):
+                    ms = self.call_targets_safe(c, fi)
+                    if ms and all(self.emits_always(m) for m in ms):
+                        return 1
+        return 0
+
+    def emit_counts(self, fi: FunctionInfo, tok: str | None) -> set[int]:
+        cfg = get_cfg(fi)
+
+        def empty_content_edge(n) -> bool:
+            # `if not tok.content:` / else-branch of `if tok.content:` - nothing to show for an empty leaf
+            if not (isinstance(n, tuple) and n[0] in ("T", "F") and isinstance(n[1], ast.If)):
+                return False
+            t, pol = n[1].test, n[0] == "T"
+            if isinstance(t, ast.UnaryOp) and isinstance(t.op, ast.Not):
+                t, pol = t.operand, not pol
+            return not pol and isinstance(t, ast.Attribute) and t.attr == "content" and isinstance(t.value, ast.Name) and t.value.id == tok
+
+        res = _path_counts(cfg, "ENTRY", lambda n: self.emit_weight(n, fi) if isinstance(n, ast.stmt) else 0, empty_content_edge)
+        return set(res.get(EXIT, set()))
+
+    def emits_always(self, m: FunctionInfo) -> bool:
+        key = ("emits", m.fq)
+        if key in self.memo:
+            return bool(self.memo[key])
+        self.memo[key] = False  # recursion: assume nothing
+        if m.is_lambda:
+            return False
+        got = self.emit_counts(m, _tok_param(m))
+        self.memo[key] = bool(got) and 0 not in got
+        return self.memo[key]
+
+    def sequence_loops(self, m: FunctionInfo, p: str) -> bool:
+        """``for t in p [or []]`` loops of a helper whose parameter ``p`` is a sequence of tokens, every iteration
+        of which renders ``t`` once (or is excused)."""
+        found = False
+        for n in m.local_nodes():
+            if isinstance(n, ast.For) and isinstance(n.target, ast.Name):
+                it = n.iter
+                if isinstance(it, ast.BoolOp) and isinstance(it.op, ast.Or) and len(it.values) == 2:
+                    it = it.values[0]
+                if isinstance(it, ast.Name) and it.id == p:
+                    res, _ = self.consume_paths(m, ("T", n), n.target.id, extra_stop=n)
+                    if any(c >= 1 for c, _x in res):
+                        if any(not (c == 1 or (c == 0 and x)) for c, x in res):
+                            return False
+                        found = True
+        return found
+
+    def delegated_loops(self, fi: FunctionInfo, tok: str) -> list[ast.Call]:
+        """Calls that hand ``<..tok..>.children`` to a helper which renders every element of that sequence once."""
+        out = []
+        for c in fi.local_nodes():
+            if not (isinstance(c, ast.Call) and (_is_self_call(c) or isinstance(c.func, ast.Call))):
+                continue
+            for a in list(c.args) + [k.value for k in c.keywords]:
+                if isinstance(a, ast.Name) and a.id == tok:
+                    continue
+                txt = unparse(a) + "".join(unparse(d) for nm in ast.walk(a) if isinstance(nm, ast.Name) for d in _all_defs(fi, nm.id))
+                if "children" not in txt or not self.derives_from(a, fi, tok):
+                    continue
+                for m in self.call_targets_safe(c, fi):
+                    for p in self._param_for_arg(c, m, lambda x, a=a: x is a):
+                        if self.consume_summary(m, p) == (1, "each"):
+                            out.append(c)
+        return out
 
     def any_rendering_loop(self, fi: FunctionInfo) -> bool:
         """Some loop / pop-binding in the function renders its variable (whatever it iterates over)."""
@@ -1262,12 +1610,127 @@ def r2_nesting_discipline(corpus: Corpus, rep: Report, tier: str):
                     rep.violation("C02.R2", kk, fi.module.site(use), f"`{x}` is assigned only on some paths of an iteration of the per-child loop (and is not an accumulator), yet `{short(use, 50)}` stores it in the node built for the current child on every path: a child for which it is not assigned inherits the value computed for an earlier child (e.g. a table cell without alignment takes the alignment of the cell to its left)")
                 else:
                     rep.ok("C02.R2", kk, fi.module.site(use), "assigned on every path of the iteration before it is stored")
+        # (f) a leaf token always leaves something in the doctree
+        for t in EMITTING_LEAVES:
+            fi = an.method(f"render_{t}")
+            if fi is None or fi.cls is None or fi.cls.fq != klass.fq:
+                continue
+            got = an.emit_counts(fi, _tok_param(fi))
+            k = f"{fi.fq}|every path adds the leaf to the doctree"
+            if not got:
+                rep.error("C02.R2", f"{fi.fq}: no normal path to the exit")
+            elif 0 in got:
+                rep.violation("C02.R2", k, fi.site(), f"{fi.qualname} has a path that adds nothing to the node being filled: the `{t}` leaf of the source is missing from the doctree on that path (a warning does not stand for it)")
+            else:
+                rep.ok("C02.R2", k, fi.site(), "append / context / delegation on every normal path")
+        # (g) nothing that was rendered is taken out of the live tree again
+        if klass.fq == base_ci.fq:
+            for fi, op, root, why in _live_tree_removals(corpus, an):
+                k = f"{fi.fq}|{short(op, 50)} works on a copy"
+                if why:
+                    rep.violation("C02.R2", k, fi.module.site(op), f"`{short(op, 50)}` removes nodes from `{root}`, {why}: nodes that were rendered into the doctree disappear from it again")
+                else:
+                    rep.ok("C02.R2", k, fi.module.site(op), f"`{root}` is a private copy on every path to the removal")
         for fq, name, text, site in an.assumed:
             rep.assumed("C02.R2", f"{fq}|{name} rebound from itself|{text}", site, "the name is rebound to a value computed from the node itself (e.g. make_glossary_term(term.children)): the new node takes over the obligation")
         an.assumed.clear()
     if n_nodes < 40 or n_cont < 12:
         rep.error("C02.R2", f"vacuity guard: {n_nodes} node constructions / {n_cont} functions rendering children examined (expected >= 40 / >= 12)")
     rep.expect_min("C02.R2", 80, "node constructions + functions rendering children + child loops + context checks")
+
+
+EMITTING_LEAVES = ("text", "code_inline", "code_block", "fence", "math_inline", "math_inline_double", "math_block", "math_block_label", "amsmath", "html_inline", "html_block", "image", "hr")
+REMOVERS = ("remove", "pop", "clear", "replace", "replace_self")
+COPIERS = ("deepcopy", "copy")
+
+
+def _live_tree_removals(corpus: Corpus, an: Nesting):
+    """(function, removal op, root name, complaint or '') for every removal of docutils nodes in the render scope and
+    in the module-level helpers it calls, where the tree operated on comes from a parameter or from the renderer."""
+    funcs: dict[str, FunctionInfo] = {f.fq: f for f in an.scope()}
+    for ci in _renderer_classes(corpus):
+        a2 = _nesting(corpus, ci)
+        for f in a2.scope():
+            funcs.setdefault(f.fq, f)
+    work = list(funcs.values())
+    while work:
+        f = work.pop()
+        for c in f.local_nodes():
+            if isinstance(c, ast.Call) and isinstance(c.func, ast.Name):
+                m = an.resolve_callee(c, f)
+                if m is not None and not m.is_lambda and m.fq not in funcs and m.module.name.startswith("myst_parser.mdit_to_docutils"):
+                    funcs[m.fq] = m
+                    work.append(m)
+    out = []
+    for f in sorted(funcs.values(), key=lambda f: f.fq):
+        a = f.node.args
+        node_params = {p.arg for p in a.posonlyargs + a.args + a.kwonlyargs if p.annotation is not None and "nodes." in unparse(p.annotation)}
+
+        def origin(e: ast.AST, depth: int = 0):
+            """(root name, statement at which the tree is read) of a node-valued expression."""
+            while True:
+                if isinstance(e, ast.Attribute) and e.attr in ("parent", "children", "document"):
+                    e = e.value
+                elif isinstance(e, ast.Subscript):
+                    e = e.value
+                elif isinstance(e, ast.Call) and dotted(e.func) in ("list", "tuple", "reversed", "iter") and e.args:
+                    e = e.args[0]
+                elif isinstance(e, ast.Call) and isinstance(e.func, ast.Call) and dotted(e.func.func) == "findall" and e.func.args:
+                    e = e.func.args[0]
+                elif isinstance(e, ast.Call) and isinstance(e.func, ast.Attribute) and e.func.attr in ("findall", "traverse", "children"):
+                    e = e.func.value
+                else:
+                    break
+            if isinstance(e, ast.Attribute) and unparse(e) in ("self.current_node", "self.document"):
+                return unparse(e), None
+            if isinstance(e, ast.Name):
+                if e.id in node_params:
+                    return e.id, None
+                if depth < 3:
+                    for n in f.local_nodes():
+                        if isinstance(n, (ast.For, ast.comprehension)) and any(isinstance(t, ast.Name) and t.id == e.id for t in ast.walk(n.target)):
+                            r = origin(n.iter, depth + 1)
+                            if r is not None:
+                                return r[0], (n if isinstance(n, ast.For) else r[1])
+                    defs = _all_defs(f, e.id)
+                    if len(defs) == 1:
+                        return origin(defs[0], depth + 1)
+            return None
+
+        ops = []
+        for n in f.local_nodes():
+            if isinstance(n, ast.Call) and isinstance(n.func, ast.Attribute) and n.func.attr in REMOVERS:
+                ops.append((n, n.func.value))
+            elif isinstance(n, ast.Delete):
+                for t in n.targets:
+                    if isinstance(t, ast.Subscript):
+                        ops.append((n, t.value))
+        if not ops:
+            continue
+        cfg = get_cfg(f)
+        for op, recv in sorted(ops, key=lambda x: x[0].lineno):
+            r = origin(recv)
+            if r is None:
+                continue
+            root, read_at = r
+            if root.startswith("self."):
+                out.append((f, op, root, "the renderer's own live node"))
+                continue
+
+            def is_copy_binding(n, root=root):
+                if not isinstance(n, ast.stmt):
+                    return False
+                b = _binds(n, root)
+                return b is not False and b is not True and isinstance(b, ast.Call) and (
+                    (isinstance(b.func, ast.Attribute) and b.func.attr in COPIERS) or (dotted(b.func) or "").split(".")[-1] in COPIERS
+                )
+
+            target = cfg.stmt_of(read_at if read_at is not None else op)
+            if cfg.paths_avoiding("ENTRY", target, is_copy_binding):
+                out.append((f, op, root, f"the node handed in by the caller, which on some path has not been replaced by a copy (`{root} = {root}.deepcopy()`)"))
+            else:
+                out.append((f, op, root, ""))
+    return out
 
 
 def _root_name(e: ast.AST) -> str | None:
@@ -1398,7 +1861,7 @@ def _judge_children(an: Nesting, fi: FunctionInfo, name: str, start, stop, key: 
     if counts <= {0}:
         if not required:
             return False  # not a rendering function/loop (e.g. line-number propagation)
-        loops = an.child_loops(fi, name, judged_only=True)
+        loops = an.child_loops(fi, name, judged_only=True) + an.delegated_loops(fi, name)
         if loops:
             rep.ok("C02.R2", key, site, f"children consumed by {len(loops)} per-child loop(s)/binding(s), each judged separately")
         elif an.any_rendering_loop(fi):
@@ -1430,7 +1893,7 @@ def _all_defs(fi: FunctionInfo, name: str) -> list[ast.expr]:
     for n in fi.local_nodes():
         if isinstance(n, ast.Assign):
             for t in n.targets:
-                if any(isinstance(x, ast.Name) and x.id == name for x in ast.walk(t)):
+                if any(isinstance(x, ast.Name) and x.id == name and isinstance(x.ctx, ast.Store) for x in ast.walk(t)):
                     out.append(n.value)
         elif isinstance(n, (ast.AnnAssign, ast.AugAssign)) and isinstance(n.target, ast.Name) and n.target.id == name and n.value is not None:
             out.append(n.value)
@@ -1510,7 +1973,7 @@ def _is_split_call(e: ast.AST) -> bool:
     return isinstance(e, ast.Call) and isinstance(e.func, ast.Attribute) and e.func.attr in SPLITTERS
 
 
-def _split_bindings(fi: FunctionInfo) -> tuple[set[str], set[str]]:
+def _split_bindings(fi: FunctionInfo, an: "Nesting | None" = None, depth: int = 0) -> tuple[set[str], set[str]]:
     """(part names, remainder names): ``a, *rest = x.split(sep)`` binds a *part* of x to ``a`` and the remainder to
     ``rest``; ``a = x.split(sep)[0]`` binds a part with no remainder kept. Names computed from remainder names only
     (``frag = rest[0] if rest else None``) count as remainder too."""
@@ -1520,7 +1983,21 @@ def _split_bindings(fi: FunctionInfo) -> tuple[set[str], set[str]]:
         if not isinstance(n, ast.Assign) or len(n.targets) != 1:
             continue
         t, v = n.targets[0], n.value
-        if isinstance(t, (ast.Tuple, ast.List)) and _is_split_call(v):
+        helper = an.resolve_callee(v, fi) if an is not None and isinstance(v, ast.Call) and depth < 2 else None
+        if isinstance(t, (ast.Tuple, ast.List)) and helper is not None and not helper.is_lambda:
+            # a package helper that splits for us (e.g. a NamedTuple factory): read the roles off its return value
+            hp, hr = _split_bindings(helper, an, depth + 1)
+            for r in helper.local_nodes():
+                if isinstance(r, ast.Return) and isinstance(r.value, (ast.Call, ast.Tuple)):
+                    elts = r.value.args if isinstance(r.value, ast.Call) else r.value.elts
+                    for tgt, el in zip(t.elts, elts):
+                        nm = tgt.id if isinstance(tgt, ast.Name) else None
+                        used = {x.id for x in ast.walk(el) if isinstance(x, ast.Name)}
+                        if nm and isinstance(el, ast.Name) and el.id in hp:
+                            parts.add(nm)
+                        elif nm and used & hr and not (used - hr - {"None", "len"}):
+                            rem.add(nm)
+        elif isinstance(t, (ast.Tuple, ast.List)) and _is_split_call(v):
             names = [(x.value.id if isinstance(x, ast.Starred) and isinstance(x.value, ast.Name) else x.id if isinstance(x, ast.Name) else None) for x in t.elts]
             if names and names[0]:
                 parts.add(names[0])
@@ -1554,7 +2031,7 @@ def _reaches(e: ast.AST, fi: FunctionInfo, an: Nesting, is_source, depth: int = 
     """Backward data slice of ``e`` through local assignments (and, for parameters, the self-call sites)
     reaches an expression satisfying ``is_source``. With ``lossless`` the slice may not pass through a name or
     expression that holds only one part of a split string."""
-    seen: set[str] = set(_split_bindings(fi)[0]) if lossless else set()
+    seen: set[str] = set(_split_bindings(fi, an)[0]) if lossless else set()
     work = [e]
     toks = set(_tok_params(fi))
     unknown = None
@@ -1953,7 +2430,11 @@ def _generic_copy_not_truthy(corpus: Corpus, rep: Report) -> None:
         raise Unsupported("copy_attributes: expected one `for key, value in token.attrs.items()` loop")
     kvar, vvar = (x.id for x in loops[0].target.elts)
     cfg = get_cfg(f)
-    stores = [n for n in ast.walk(loops[0]) if isinstance(n, ast.Assign) and len(n.targets) == 1 and isinstance(n.targets[0], ast.Subscript) and unparse(n.targets[0].slice) == kvar]
+    def is_key(e: ast.expr) -> bool:
+        # the loop's key, or a local computed from it (the aliased key)
+        return isinstance(e, ast.Name) and (e.id == kvar or any(_mentions(d, kvar) for d in _all_defs(f, e.id)))
+
+    stores = [n for n in ast.walk(loops[0]) if isinstance(n, ast.Assign) and len(n.targets) == 1 and isinstance(n.targets[0], ast.Subscript) and is_key(n.targets[0].slice) and unparse(n.targets[0].value) in f.params]
     if not stores:
         raise Unsupported("copy_attributes: no generic `node[key] = value` store found")
     for i, st in enumerate(sorted(stores, key=lambda n: n.lineno)):
@@ -2096,10 +2577,10 @@ def r3_verbatim_leaves(corpus: Corpus, rep: Report, tier: str):
             link_scope.add(f.fq)
             toks = set(_tok_params(f))
             for c in f.local_nodes():
-                if isinstance(c, ast.Call) and _is_self_call(c) and any(isinstance(a, ast.Name) and a.id in toks for a in c.args):
-                    m = an.method(c.func.attr)
-                    if m is not None and _tok_params(m):
-                        work.append(m)
+                if isinstance(c, ast.Call) and (_is_self_call(c) or isinstance(c.func, ast.Call)) and any(isinstance(a, ast.Name) and a.id in toks for a in c.args):
+                    for m in an.call_targets(c, f):
+                        if _tok_params(m):
+                            work.append(m)
         for fi in an.scope():
             if fi.cls is None or fi.cls.fq != klass.fq or not _tok_params(fi) or fi.fq not in link_scope:
                 continue
@@ -2121,7 +2602,7 @@ def r3_verbatim_leaves(corpus: Corpus, rep: Report, tier: str):
                         rep.ok("C02.R3", k, fi.module.site(site_node), f"derives from token.attrGet({attr!r})")
                         return
                     # only a part of the destination (e.g. the path before '#') arrives here: the rest must travel alongside
-                    _parts, rem = _split_bindings(fi)
+                    _parts, rem = _split_bindings(fi, an)
                     companions = []
                     if isinstance(site_node, ast.Call):
                         companions = [kw.arg for kw in site_node.keywords if kw.arg != key_name and kw.arg is not None and any(isinstance(x, ast.Name) and x.id in rem for x in ast.walk(kw.value))]
@@ -2259,9 +2740,36 @@ def _check_context_manager(f: FunctionInfo) -> str | None:
     return None
 
 
+def _is_heading_tail(corpus: Corpus, fi: FunctionInfo, depth: int = 0) -> bool:
+    """render_heading itself, or a helper method that is only ever called as the last action of render_heading
+    (or of such a helper): its final statement is then the final statement of the heading handler."""
+    if fi.qualname == "DocutilsRenderer.render_heading":
+        return True
+    if depth > 3 or fi.cls is None or fi.name.startswith("render_"):
+        return False
+    sites = []
+    for ci in _renderer_classes(corpus):
+        for g in ci.methods.values():
+            for c in g.local_nodes():
+                if isinstance(c, ast.Call) and _is_self_call(c, fi.name):
+                    sites.append((g, c))
+    if not sites:
+        return False
+    for g, c in sites:
+        cfg = get_cfg(g)
+        st = cfg.stmt_of(c)
+        if not isinstance(st, (ast.Expr, ast.Return)) or (isinstance(st, ast.Expr) and st.value is not c) or (isinstance(st, ast.Return) and st.value is not c):
+            return False
+        if isinstance(st, ast.Expr) and cfg.succ.get(st, []) != [EXIT]:
+            return False
+        if not _is_heading_tail(corpus, g, depth + 1):
+            return False
+    return True
+
+
 @rule("C02.R4")
 def r4_current_node_writers(corpus: Corpus, rep: Report, tier: str):
-    rep.rule("C02.R4", "current_node is rebound only in setup_render, the two halves of current_node_context and as the last statement of render_heading's section branch; += on it appends")
+    rep.rule("C02.R4", "current_node is rebound only in setup_render, the two halves of current_node_context and as the last statement of render_heading's section branch (or of a helper called last by it); += on it appends")
     _load_node_classes(corpus, rep)
     n_aug = 0
     for fi in corpus.all_functions():
@@ -2289,21 +2797,21 @@ def r4_current_node_writers(corpus: Corpus, rep: Report, tier: str):
                     rep.violation("C02.R4", k, site, bad)
                 else:
                     rep.ok("C02.R4", k, site, "save / set to the node handed in / restore the saved value")
-            elif q == "DocutilsRenderer.render_heading":
+            elif _is_heading_tail(corpus, fi):
                 cfg = get_cfg(fi)
                 val = st.value if isinstance(st, ast.Assign) else None
                 sec = isinstance(val, ast.Name) and any(isinstance(d, ast.Call) and _node_class(d, fi.module) == "docutils.nodes.section" for d in _single_defs(fi, val.id))
                 last = cfg.succ.get(st, []) == [EXIT]
+                an4 = _nesting(corpus, corpus.cls(RENDERER))
                 attached = isinstance(val, ast.Name) and any(
-                    isinstance(c, ast.Call) and _is_self_call(c, "update_section_level_state") and c.args and unparse(c.args[0]) == val.id and cfg.dominates(cfg.stmt_of(c), st)
-                    for c in fi.local_nodes()
+                    isinstance(d, ast.stmt) and d is not st and an4.attach_weight(d, val.id, fi) >= 1 for d in cfg.dom().get(st, set())
                 )
                 if not sec:
-                    rep.violation("C02.R4", k, site, f"render_heading leaves current_node at `{short(val, 40) if val is not None else '?'}`, which is not the freshly created section")
+                    rep.violation("C02.R4", k, site, f"{fi.name} leaves current_node at `{short(val, 40) if val is not None else '?'}`, which is not the freshly created section")
                 elif not last:
-                    rep.violation("C02.R4", k, site, "render_heading rebinds current_node before its last statement: the rest of the handler (title, target) is rendered into the new section instead of the title")
+                    rep.violation("C02.R4", k, site, f"{fi.name} rebinds current_node before its last statement: the rest of the handler (title, target) is rendered into the new section instead of the title")
                 elif not attached:
-                    rep.violation("C02.R4", k, site, "the section that becomes current_node is not attached by update_section_level_state on every path to the store")
+                    rep.violation("C02.R4", k, site, "the section that becomes current_node is not attached (update_section_level_state) on every path to the store")
                 else:
                     rep.ok("C02.R4", k, site, "final statement of the section branch; the section was attached before")
             else:
@@ -2407,6 +2915,7 @@ def r5_backend_agreement(corpus: Corpus, rep: Report, tier: str):
             rep.error("C02.R5", f"use of `{rp}` at {f.module.site(u)} not understood: {short(enclosing_expr(u), 60)}")
     if n_ctor < 3:
         rep.error("C02.R5", f"expected three MarkdownIt(...) constructions (commonmark, gfm, myst), found {n_ctor}")
+    _front_end_parsers(corpus, rep, f)
     rep.expect_min("C02.R5", 9, "7 overrides + 3 MarkdownIt constructions on the pinned tree")
 
 
@@ -2586,6 +3095,97 @@ def r6_section_level_state(corpus: Corpus, rep: Report, tier: str):
     else:
         rep.ok("C02.R6", k, f.module.site(st), "kept iff level' <= level" if kind == "rebuild" else "removes exactly the deeper levels")
     rep.expect_min("C02.R6", 3, "store, parent selection, pruning")
+
+
+def _config_reads(fi: FunctionInfo, cfg_param: str) -> set[str]:
+    return {n.attr for n in fi.local_nodes() if isinstance(n, ast.Attribute) and isinstance(n.value, ast.Name) and n.value.id == cfg_param}
+
+
+def _front_end_parsers(corpus: Corpus, rep: Report, cmp_fn: FunctionInfo) -> None:
+    """Both front ends render with the parser create_md_parser builds for the document's configuration: directly, or
+    through a helper that returns a fresh one - or a cached one whose key covers every configuration field that
+    create_md_parser reads (a parser built for another configuration tokenises differently than the configuration of
+    this document says, so the doctree is no image of create_md_parser(config).parse(text))."""
+    cfg_param = cmp_fn.params[0]
+    reads = _config_reads(cmp_fn, cfg_param)
+    base_ci = corpus.cls(RENDERER)
+    ok_classes = {base_ci.name} | {c.name for c in corpus.subclasses(base_ci)}
+    for fq in ("parsers.docutils_:Parser.parse", "parsers.sphinx_:MystParser.parse"):
+        fe = corpus.func(fq)
+        rep.saw_function(fe.fq)
+        k = f"{fe.fq}|renders with create_md_parser(config) for this document"
+        rcalls = [c for c in fe.local_nodes() if isinstance(c, ast.Call) and isinstance(c.func, ast.Attribute) and c.func.attr == "render" and isinstance(c.func.value, ast.Name) and c.args]
+        cands = []
+        for c in rcalls:
+            for d in _all_defs(fe, c.func.value.id):
+                if isinstance(d, ast.Call):
+                    cands.append((c, d))
+        if len(cands) != 1:
+            raise Unsupported(f"{fe.qualname}: expected one `<parser>.render(text)` on a parser built by a call, found {len(cands)}")
+        rcall, ctor = cands[0]
+        site = fe.module.site(ctor)
+        d = dotted(ctor.func) or ""
+        target = corpus.find_function(fe.module.resolve(d)) if d else None
+        if target is None:
+            raise Unsupported(f"{fe.qualname}: parser factory `{short(ctor.func, 40)}` is not a package function")
+        rcls = ctor.args[1] if len(ctor.args) > 1 else kwarg(ctor, "renderer")
+        if rcls is None or (dotted(rcls) or "").split(".")[-1] not in ok_classes:
+            rep.violation("C02.R5", k, site, f"the front end builds its parser with the renderer `{short(rcls, 30) if rcls is not None else 'default'}`, not with a DocutilsRenderer class")
+            continue
+        if target.fq == cmp_fn.fq:
+            rep.ok("C02.R5", k, site, "fresh create_md_parser(config, renderer) per parse")
+            continue
+        # a helper between the front end and create_md_parser
+        h = target
+        hp = h.params
+        if len(hp) < 2:
+            raise Unsupported(f"{h.fq}: parser helper signature")
+        hcfg = hp[0]
+        rets = [r for r in h.local_nodes() if isinstance(r, ast.Return) and r.value is not None]
+        verdict = None
+        for r in rets:
+            v = r.value
+            while isinstance(v, ast.Name) and len(_all_defs(h, v.id)) == 1:
+                v = _all_defs(h, v.id)[0]
+            if isinstance(v, ast.Call) and corpus.find_function(h.module.resolve(dotted(v.func) or "")) is not None and corpus.find_function(h.module.resolve(dotted(v.func) or "")).fq == cmp_fn.fq:
+                a0 = v.args[0] if v.args else kwarg(v, cfg_param)
+                if not (isinstance(a0, ast.Name) and a0.id == hcfg):
+                    verdict = f"{h.qualname} builds the parser from `{short(a0, 30) if a0 is not None else '?'}`, not from the configuration it is given"
+                continue
+            if isinstance(v, ast.Subscript) and isinstance(v.value, ast.Name) and v.value.id in h.module.const_nodes:
+                # a module-level cache: its key must determine everything create_md_parser reads from the configuration
+                keyexpr = v.slice
+                names = {hcfg} if any(isinstance(x, ast.Name) and x.id == hcfg and not isinstance(parent(x), ast.Attribute) for x in ast.walk(keyexpr)) else set()
+                fields: set[str] = set()
+                whole = False
+                seen: set[str] = set()
+                work = [keyexpr]
+                while work:
+                    x = work.pop()
+                    for n in ast.walk(x):
+                        if isinstance(n, ast.Attribute) and isinstance(n.value, ast.Name) and n.value.id == hcfg:
+                            fields.add(n.attr)
+                        elif isinstance(n, ast.Name):
+                            if n.id == hcfg and not (isinstance(parent(n), ast.Attribute) and parent(n).value is n):
+                                whole = True
+                            elif n.id not in seen:
+                                seen.add(n.id)
+                                work.extend(_all_defs(h, n.id))
+                missing = sorted(reads - fields)
+                if not whole and missing:
+                    verdict = (
+                        f"{h.qualname} returns a parser from the module-level cache `{v.value.id}` whose key does not cover the configuration fields "
+                        f"{', '.join(missing)} that create_md_parser reads when it builds the parser: a document is tokenised with the plugin settings of an earlier document "
+                        "that had the same key, so its doctree is not the image of create_md_parser(config).parse(text)"
+                    )
+                continue
+            raise Unsupported(f"{h.fq}: return value `{short(v, 50)}` not understood")
+        if not rets:
+            raise Unsupported(f"{h.fq}: no return")
+        if verdict:
+            rep.violation("C02.R5", k, site, verdict)
+        else:
+            rep.ok("C02.R5", k, site, f"through {h.qualname}: fresh parser, or cache keyed on every configuration field create_md_parser reads")
 
 
 def enclosing_expr(n: ast.AST) -> ast.AST:
@@ -2821,6 +3421,38 @@ def mutants(corpus: Corpus):
     else:
         out.append(("c02-cell-*", "alignment store in render_table_row not found"))
 
+    # class: a leaf handler with a path that leaves nothing in the doctree
+    f = base.func(R + "render_hr")
+    st0 = f.node.body[0]
+    ind = indent_of(f, st0)
+    add("c02-hr-dropped-outside-sections", "C02.R2", base, st0, f'if not isinstance(self.current_node, nodes.document | nodes.section):\n{ind}    self.create_warning("Thematic break is only supported at the top level of a section", MystWarnings.NOT_SUPPORTED, line=token_line(token, default=0))\n{ind}    return\n{ind}' + _seg(base, st0), "render_hr|every path")
+    f = base.func(R + "render_math_inline")
+    st0 = f.node.body[0]
+    ind = indent_of(f, st0)
+    add("c02-math-dropped-in-commonmark-mode", "C02.R2", base, st0, f"if self.md_config.commonmark_only:\n{ind}    return\n{ind}" + _seg(base, st0), "render_math_inline|every path")
+    f = base.func(R + "render_image")
+    st = find_node(f, lambda n: isinstance(n, ast.Assign) and unparse(n.targets[0]) == "destination")
+    if st is not None:
+        ind = indent_of(f, st)
+        add("c02-image-without-src-dropped", "C02.R2", base, st, _seg(base, st) + f'\n{ind}if not destination:\n{ind}    self.create_warning("image without source", MystWarnings.NOT_SUPPORTED, line=token_line(token, default=0), append_to=self.current_node)\n{ind}    return', "render_image|every path")
+    # class: a helper prunes the node it is given instead of a copy
+    f = base.func("clean_astext")
+    cp = find_node(f, lambda n: isinstance(n, ast.Assign) and isinstance(n.value, ast.Call) and isinstance(n.value.func, ast.Attribute) and n.value.func.attr == "deepcopy")
+    if cp is not None:
+        ind = indent_of(f, cp)
+        add("c02-astext-copy-only-with-images", "C02.R2", base, cp, f"if any(findall(node)(nodes.image)):\n{ind}    " + _seg(base, cp), "works on a copy")
+        add("c02-astext-copy-dropped", "C02.R2", base, cp, "pass", "works on a copy")
+        add("c02-astext-copy-bound-to-other-name", "C02.R2", base, cp, "clone = node.deepcopy()", "works on a copy")
+    else:
+        out.append(("c02-astext-copy-*", "deepcopy in clean_astext not found"))
+    # class: 'explicit link text' decided from the rendered text of the children instead of their presence
+    f = sph.func("SphinxRenderer.render_link_unknown")
+    ex = find_node(f, lambda n: isinstance(n, ast.Assign) and unparse(n.targets[0]) == "explicit")
+    add("c02-sphinx-explicit-from-alt-text", "C02.R2", sph, ex.value if ex else None, 'token.info != "auto" and bool(self.renderInlineAsText(token.children or []).strip())', "_process_wrap_node|children")
+    f = base.func(R + "render_link_inventory")
+    ex = find_node(f, lambda n: isinstance(n, ast.Assign) and unparse(n.targets[0]) == "explicit")
+    add("c02-inventory-explicit-from-alt-text", "C02.R2", base, ex.value if ex else None, 'token.info != "auto" and bool(self.renderInlineAsText(token.children or []))', "render_link_inventory|children")
+
     # ---- R4
     f = base.func(R + "render_paragraph")
     w = find_node(f, lambda n: isinstance(n, ast.With))
@@ -2859,6 +3491,33 @@ def mutants(corpus: Corpus):
         base2 = "".join(src_lines[: f_s.node.lineno - 1] + [line.replace("def render_s(", "def _render_s_old(")] + src_lines[f_s.node.lineno :])
         sph2 = splice(sph.src, f.node, f"def render_s(self, token: SyntaxTreeNode) -> None:\n{ind}    self.render_children(token)\n\n{ind}" + _seg(sph, f.node))
         out.append(Mutant("c02-handler-only-in-sphinx", "C02.R5", sph.rel, sph2, expect="render_s", more={base.rel: base2}))
+    # class: the front ends render with a parser that is not create_md_parser(config) of this document
+    dmod, smod = corpus.mod("parsers.docutils_"), corpus.mod("parsers.sphinx_")
+
+    def via_helper(mod, fq):
+        fe = mod.func(fq)
+        c = find_node(fe, lambda n: isinstance(n, ast.Call) and unparse(n.func) == "create_md_parser")
+        if c is None:
+            return None
+        src2 = splice(mod.src, c.func, "get_md_parser")
+        return src2.replace("import create_md_parser", "import get_md_parser", 1)
+
+    d2, s2 = via_helper(dmod, "Parser.parse"), via_helper(smod, "MystParser.parse")
+    if d2 and s2:
+        cache = (
+            "\n\n_PARSERS: dict = {}\n\n\ndef get_md_parser(config: MdParserConfig, renderer):\n"
+            "    key = (renderer, config.commonmark_only, config.gfm_only, tuple(sorted(config.enable_extensions)), tuple(config.disable_syntax), config.enable_checkboxes)\n"
+            "    if key not in _PARSERS:\n        _PARSERS[key] = create_md_parser(config, renderer)\n"
+            "    _PARSERS[key].options[\"myst_config\"] = config\n    return _PARSERS[key]\n"
+        )
+        out.append(Mutant("c02-parser-cache-key-misses-plugin-settings", "C02.R5", mdit.rel, mdit.src + cache, expect="does not cover the configuration fields", more={dmod.rel: d2, smod.rel: s2}))
+        fresh_default = "\n\ndef get_md_parser(config: MdParserConfig, renderer):\n    defaults = MdParserConfig()\n    return create_md_parser(defaults, renderer)\n"
+        out.append(Mutant("c02-parser-built-from-default-config", "C02.R5", mdit.rel, mdit.src + fresh_default, expect="not from the configuration it is given", more={dmod.rel: d2, smod.rel: s2}))
+    else:
+        out.append(("c02-parser-cache-*", "create_md_parser call not found in a front end"))
+    fe = smod.func("MystParser.parse")
+    c = find_node(fe, lambda n: isinstance(n, ast.Call) and unparse(n.func) == "create_md_parser")
+    add("c02-sphinx-front-end-wrong-renderer", "C02.R5", smod, c.args[1] if c is not None and len(c.args) > 1 else None, "RendererHTML", "not with a DocutilsRenderer class")
     ctor = sorted((n for n in walk_local(cm.node) if isinstance(n, ast.Call) and unparse(n.func) == "MarkdownIt"), key=lambda n: n.lineno)
     add("c02-gfm-mode-default-renderer", "C02.R5", mdit, ctor[1] if len(ctor) > 1 else None, 'MarkdownIt("commonmark")', "not given the caller's renderer")
     st = find_node(cm, lambda n: isinstance(n, ast.Assign) and unparse(n.targets[0]) == "typographer")
